@@ -437,7 +437,7 @@ def run(ctx):
                     attrs={"src": a[0], "read": lambda i2, a2, k2, n2: Sym("READ_BYTES", truthy=True, pytype=bytes)})
             created.append(s)
             return s
-        path_obj = lambda exists: Sym("PATH", truthy=True, pytype=IOObj, attrs={"is_file": lambda i, a, k, n: exists, "stem": "stemname", "suffix": ".xlsx",
+        path_obj = lambda exists: Sym("PATH", truthy=True, pytype=IOObj, attrs={"is_file": lambda i, a, k, n: exists, "stem": "stemname", "suffix": ".xlsx", "name": "stemname.xlsx", "suffixes": [".xlsx"],
                                                                     "read_bytes": lambda i, a, k, n: Sym("FILE_BYTES", truthy=True, pytype=bytes)})
         for kind, exists in (("bytes", False), ("BytesIO", False), ("file", False), ("text", False), ("text", True)):
             it = ctx.interp("C12.R4", hooks={"ext:io.BytesIO": h_bytesio, "ext:pathlib.Path": lambda i, a, k, n, e=exists: path_obj(e),
